@@ -56,6 +56,9 @@ func sameValue(a, b ssa.Value, depth int) bool {
 	case *ssa.IndexAddr:
 		y, ok := b.(*ssa.IndexAddr)
 		return ok && sameValue(x.X, y.X, depth+1) && sameValue(x.Index, y.Index, depth+1)
+	case *ssa.BinOp:
+		y, ok := b.(*ssa.BinOp)
+		return ok && x.Op == y.Op && sameValue(x.X, y.X, depth+1) && sameValue(x.Y, y.Y, depth+1)
 	case *ssa.Const:
 		y, ok := b.(*ssa.Const)
 		if !ok {
